@@ -90,6 +90,8 @@ def _direct_user_call(fd: FuncDef, role_names: Set[str] = frozenset()) -> bool: 
             return True
         if isinstance(n.func, ast.Attribute) and n.func.attr in role_names:
             return True
+        if role_names and isinstance(n.func, ast.Name) and n.func.id in ps:
+            return True  # a higher-order helper: what it does is decided by the callables its callers hand it
     if role_names and any(isinstance(n, ast.Global) for n in _own_walk(fd)):
         return True  # sets / drops module state of the API module (the evaluation-context global)
     return False
@@ -319,7 +321,10 @@ def _assigned(fd: FuncDef) -> Set[str]:
     return out
 
 
-def _expand(caller: FuncDef, st: ast.stmt, call: ast.Call, fd: FuncDef, serial: int) -> Optional[InlineBlock]:
+def _expand(caller: FuncDef, st: ast.stmt, call: ast.Call, fd: FuncDef, serial: int, fun_names: Set[str] = frozenset()) -> Optional[InlineBlock]:  # type: ignore
+    """fun_names: names that are bound once, to a function definition, where the call is (module-level functions, nested
+    definitions of the caller): a parameter that receives such a name and is never reassigned *is* that function - it is
+    renamed instead of bound, so that the expanded body calls the function by its own name"""
     binds = _bind(fd, call)
     if binds is None:
         return None
@@ -340,6 +345,12 @@ def _expand(caller: FuncDef, st: ast.stmt, call: ast.Call, fd: FuncDef, serial: 
             continue
         if x in caller_names:
             mapping[x] = x + suffix
+    for p, e in binds:
+        if p not in skip_bind and isinstance(e, ast.Name) and e.id in fun_names and p not in assigned:
+            called = any(isinstance(n, ast.Call) and isinstance(n.func, ast.Name) and n.func.id == p for n in _own_walk(fd))
+            if called:
+                mapping[p] = e.id
+                skip_bind.add(p)
     body = [copy.deepcopy(s) for s in fd.body]
     if body and isinstance(body[0], ast.Expr) and isinstance(body[0].value, ast.Constant) and isinstance(body[0].value.value, str):
         body = body[1:]
@@ -448,7 +459,8 @@ def normalise(tree: ast.Module, protected: Set[str], role_names: Set[str] = froz
             fd = funcs[h]
             blocks = []
             for serial, (caller, st, c) in enumerate(sites[h]):
-                blk = _expand(caller, st, c, fd, serial)
+                fun_names = (set(funcs) | {n.name for n in ast.walk(caller) if isinstance(n, ast.FunctionDef) and n is not caller}) - _assigned(caller)
+                blk = _expand(caller, st, c, fd, serial, fun_names)
                 if blk is None:
                     blocks = []
                     break
@@ -463,6 +475,207 @@ def normalise(tree: ast.Module, protected: Set[str], role_names: Set[str] = froz
             tree.body.remove(fd)
             done_any = True
             log.append(f"{h} inlined into {', '.join(sorted({c.name for c, _s, _b in blocks}))}")
+        if not done_any:
+            break
+    if role_names:
+        log += _inline_nested(tree, role_names)
+    return log
+
+
+def _free_names(fd: FuncDef) -> Set[str]:
+    loc = _locals(fd)
+    return {n.id for n in ast.walk(fd) if isinstance(n, ast.Name) and n.id not in loc}
+
+
+def _inline_nested(tree: ast.Module, role_names: Set[str]) -> List[str]:
+    """Second phase: closures.  A function defined in the body of a module-level function and called from it (or from a
+    sibling closure) at statement level is expanded like a private helper when it is role-bearing (it calls a role name,
+    or a sibling closure that does), is not recursive, not decorated, not a generator, declares no `nonlocal`, and is
+    referenced by direct statement-level calls only.  Its free variables are the enclosing function's variables: they
+    mean the same thing at the call site (a sibling closure is a call site only if none of them is shadowed there)."""
+    log: List[str] = []
+    module_funs = {st.name for st in tree.body if isinstance(st, ast.FunctionDef)}
+    for top in [st for st in tree.body if isinstance(st, ast.FunctionDef)]:
+        for _round in range(6):
+            nested: Dict[str, FuncDef] = {st.name: st for st in top.body if isinstance(st, ast.FunctionDef)}
+            if not nested:
+                break
+            scopes: List[FuncDef] = [top] + list(nested.values())
+            sites: Dict[str, List[Tuple[FuncDef, ast.stmt, ast.Call]]] = {h: [] for h in nested}
+            seen: Set[int] = set()
+            for sc in scopes:
+                for n in _own_walk(sc, into_lambdas=False):
+                    if isinstance(n, ast.stmt):
+                        c = _stmt_call(n)
+                        if c is not None and isinstance(c.func, ast.Name) and c.func.id in nested:
+                            sites[c.func.id].append((sc, n, c))
+                            seen.add(id(c.func))
+            other = {h: 0 for h in nested}
+            for n in ast.walk(top):
+                if isinstance(n, ast.Name) and n.id in nested and id(n) not in seen:
+                    other[n.id] += 1
+            bearing = {h for h, fd in nested.items() if any(
+                isinstance(n, ast.Call) and ((isinstance(n.func, ast.Name) and n.func.id in role_names) or (isinstance(n.func, ast.Attribute) and n.func.attr in role_names))
+                for n in _own_walk(fd))}
+            changed = True
+            while changed:
+                changed = False
+                for h, ss in sites.items():
+                    if h in bearing:
+                        for (sc, _st, _c) in ss:
+                            if sc is not top and sc.name not in bearing:
+                                bearing.add(sc.name)
+                                changed = True
+            cand = []
+            for h, fd in nested.items():
+                if h not in bearing or fd.decorator_list or not sites[h] or other[h]:
+                    continue
+                if any(isinstance(n, (ast.Yield, ast.YieldFrom, ast.Await, ast.Nonlocal, ast.Global)) for n in _own_walk(fd)):
+                    continue
+                if any(sc is fd for sc, _s, _c in sites[h]):
+                    continue
+                free = _free_names(fd)
+                if any(sc is not top and (free & (_locals(sc) - {h})) for sc, _s, _c in sites[h]):
+                    continue
+                cand.append(h)
+            leaves = [h for h in cand if not any(sc is nested[h] and g in cand for g in cand for sc, _s, _c in sites[g])]
+            if not leaves:
+                break
+            done_any = False
+            for h in leaves:
+                fd = nested[h]
+                blocks = []
+                for serial, (sc, st, c) in enumerate(sites[h]):
+                    fun_names = (module_funs | set(nested)) - _assigned(sc) - _assigned(top)
+                    blk = _expand(sc, st, c, fd, serial, fun_names)
+                    if blk is None:
+                        blocks = []
+                        break
+                    blocks.append((sc, st, blk))
+                if not blocks:
+                    continue
+                for sc, st, blk in blocks:
+                    if not _replace_stmt(sc, st, blk):
+                        raise RuntimeError(f"inline: statement of {sc.name} not found")
+                top.body.remove(fd)
+                done_any = True
+                log.append(f"closure {top.name}.{h} inlined into {', '.join(sorted({c.name for c, _s, _b in blocks}))}")
+            if not done_any:
+                break
+    return log
+
+
+def _deco_kind(fd: FuncDef) -> Optional[str]:
+    """'plain' / 'classmethod' / 'staticmethod'; None for any other decorator"""
+    if not fd.decorator_list:
+        return "plain"
+    if len(fd.decorator_list) == 1 and isinstance(fd.decorator_list[0], ast.Name) and fd.decorator_list[0].id in ("classmethod", "staticmethod"):
+        return fd.decorator_list[0].id
+    return None
+
+
+def normalise_new(tree: ast.Module, known: Set[str], protected: Set[str]) -> List[str]:
+    """Third phase, for every module: helpers that the reference tree does not have.
+
+    `known` holds the private functions, methods and closures of the pinned tree (ddsverif/known_names.py): the rules were
+    written against them and look several of them up by name.  A private module-level function or private method that is NOT
+    in that table was introduced by a later change ('extract function / extract method'); it is expanded at its call sites
+    when every reference to it is a direct statement-level call (`x = _h(..)`, `return self._h(..)`, `cls._h(..)`) from a
+    function of the same module / a method of the same class, and it is undecorated (classmethod / staticmethod aside), not a
+    generator, not directly recursive.  Nothing of the reference tree is ever touched by this phase, so the analysis of the
+    pinned tree does not depend on it."""
+    log: List[str] = []
+    for _round in range(8):
+        scopes: List[Tuple[FuncDef, Optional[ast.ClassDef]]] = []
+        for st in tree.body:
+            if isinstance(st, ast.FunctionDef):
+                scopes.append((st, None))
+            elif isinstance(st, ast.ClassDef):
+                for m in st.body:
+                    if isinstance(m, ast.FunctionDef):
+                        scopes.append((m, st))
+        helpers: Dict[str, Tuple[FuncDef, Optional[ast.ClassDef]]] = {}
+        for fd, cls in scopes:
+            q = fd.name if cls is None else f"{cls.name}.{fd.name}"
+            if not fd.name.startswith("_") or (fd.name.startswith("__") and fd.name.endswith("__")):
+                continue
+            if q in known or fd.name in protected or _deco_kind(fd) is None:
+                continue
+            if cls is None and fd.decorator_list:
+                continue
+            if any(isinstance(n, (ast.Yield, ast.YieldFrom, ast.Await)) for n in _own_walk(fd)):
+                continue
+            helpers[q] = (fd, cls)
+        if not helpers:
+            break
+        sites: Dict[str, List[Tuple[FuncDef, ast.stmt, ast.Call]]] = {q: [] for q in helpers}
+        seen: Set[int] = set()
+        for caller, ccls in scopes:
+            for n in _own_walk(caller, into_lambdas=False):
+                if not isinstance(n, ast.stmt):
+                    continue
+                c = _stmt_call(n)
+                if c is None:
+                    continue
+                if isinstance(c.func, ast.Name) and c.func.id in helpers and helpers[c.func.id][1] is None:
+                    sites[c.func.id].append((caller, n, c))
+                    seen.add(id(c.func))
+                elif isinstance(c.func, ast.Attribute) and isinstance(c.func.value, ast.Name) and c.func.value.id in ("self", "cls") and ccls is not None:
+                    q = f"{ccls.name}.{c.func.attr}"
+                    if q in helpers and _params(caller)[:1] == [c.func.value.id]:
+                        sites[q].append((caller, n, c))
+                        seen.add(id(c.func))
+        other: Dict[str, int] = {q: 0 for q in helpers}
+        for n in ast.walk(tree):
+            if isinstance(n, ast.Name) and isinstance(n.ctx, ast.Load) and id(n) not in seen and n.id in helpers:
+                other[n.id] += 1
+            elif isinstance(n, ast.Attribute) and id(n) not in seen:
+                for q, (fd, cls) in helpers.items():
+                    if cls is not None and fd.name == n.attr:
+                        other[q] += 1
+        # a method name defined by two classes of the module may be an override: left alone
+        names: Dict[str, int] = {}
+        for fd, cls in scopes:
+            if cls is not None:
+                names[fd.name] = names.get(fd.name, 0) + 1
+        cand = [q for q, (fd, cls) in helpers.items() if sites[q] and not other[q] and not any(caller is fd for caller, _s, _c in sites[q])
+                and (cls is None or names.get(fd.name, 0) == 1)]
+        leaves = [q for q in cand if not any(caller is helpers[q][0] and g in cand for g in cand for caller, _s, _c in sites[g])]
+        if not leaves:
+            break
+        done_any = False
+        for q in leaves:
+            fd, cls = helpers[q]
+            kind = _deco_kind(fd)
+            blocks = []
+            for serial, (caller, st, c) in enumerate(sites[q]):
+                call = c
+                if cls is not None and kind != "staticmethod":
+                    recv: ast.AST = copy.deepcopy(c.func.value)  # type: ignore
+                    if kind == "classmethod" and recv.id == "self":  # type: ignore
+                        recv = ast.Call(func=ast.Name(id="type", ctx=ast.Load()), args=[recv], keywords=[])
+                    elif kind == "plain" and recv.id == "cls":  # type: ignore
+                        blocks = []
+                        break
+                    call = ast.Call(func=c.func, args=[recv] + list(c.args), keywords=list(c.keywords))
+                    ast.copy_location(call, c)
+                    ast.fix_missing_locations(call)
+                fun_names = ({f.name for f, k in scopes if k is None} | {n.name for n in ast.walk(caller) if isinstance(n, ast.FunctionDef) and n is not caller}) - _assigned(caller)
+                blk = _expand(caller, st, call, fd, serial, fun_names)
+                if blk is None:
+                    blocks = []
+                    break
+                blocks.append((caller, st, blk))
+            if not blocks:
+                log.append(f"{q}: call shape not understood, left as a callee")
+                protected = protected | {fd.name}
+                continue
+            for caller, st, blk in blocks:
+                if not _replace_stmt(caller, st, blk):
+                    raise RuntimeError(f"inline: statement of {caller.name} not found")
+            (tree.body if cls is None else cls.body).remove(fd)
+            done_any = True
+            log.append(f"new helper {q} inlined into {', '.join(sorted({c.name for c, _s, _b in blocks}))}")
         if not done_any:
             break
     return log
